@@ -103,12 +103,13 @@ def spell(descr, fortran, shape, variant):
 VARIANTS = ["numpy", "double-quotes", "no-trailing-comma", "key-order", "tight", "airy", "shape-trailing-comma"]
 
 
-def build(header_text, payload, version=(1, 0)):
-    """Assemble a file the way the spec says (pad with spaces, newline, 64-byte alignment)."""
+def build(header_text, payload, version=(1, 0), align=64, extra_pad=0):
+    """Assemble a file the way the spec says (pad with spaces, newline, 64-byte alignment). align=1: no alignment padding
+    (alignment is a recommendation to writers; numpy reads such files), extra_pad: additional spaces before the newline."""
     h = header_text.encode("utf-8" if version[0] == 3 else "ascii")
     pre = 10 if version[0] == 1 else 12
     total = pre + len(h) + 1
-    pad = (64 - total % 64) % 64
+    pad = (align - total % align) % align + extra_pad
     h = h + b" " * pad + b"\n"
     lenf = struct.pack("<H", len(h)) if version[0] == 1 else struct.pack("<I", len(h))
     return MAGIC + bytes(version) + lenf + h + payload
